@@ -340,7 +340,9 @@ fn apply_edit(world: &mut World, t: &mut Tape, prof: &Profile) -> Option<String>
             let tr = trig.get(pickn(b, trig.len()))?.clone();
             world.write_source(&tr);
             let mut pool: Vec<String> = plain_sources.iter().filter(|f| exists(f) && !s.ins.contains(f) && !s.imp.contains(f)).cloned().collect();
-            pool.extend(World::reachable_generated(&world.disk, &s).into_iter().filter(|f| exists(f) && !s.ins.contains(f) && !s.imp.contains(f)));
+            // generated headers must be reachable through ordering edges in the manifest on disk and in a pending one
+            let pending_ok: Option<Vec<String>> = world.next.as_ref().and_then(|n| n.step(s.uid).map(|ns| World::reachable_generated(n, ns)));
+            pool.extend(World::reachable_generated(&world.disk, &s).into_iter().filter(|f| exists(f) && !s.ins.contains(f) && !s.imp.contains(f) && pending_ok.as_ref().map(|p| p.contains(f)).unwrap_or(true)));
             let mut inc = vec![];
             let mut bits = c as usize;
             for f in pool {
